@@ -25,3 +25,11 @@ Definition z_ktrace_eqb := ktrace_eqb Z Z Z.eqb Z.eqb.
 (* Bus._store_reader called directly with a recording stub store: the read_many / read calls *)
 Definition z_reader_batches (mp : option Z) (ls : list Z) : list (list Z) := reader_batches Z mp ls.
 Definition z_batches_eqb := list_eqb (list_eqb Z.eqb).
+
+(* Bus.__init__ (bus.py:297-341) on a Series of Frames / FrameDeferred given by the caller *)
+Definition z_m_run_init (content : list (Z * (Z * Z))) (t0 : Z) (labels : list Z) (slots : list (option Z)) (mp : option Z)
+  (tbl : list (Z * Z)) (ops : list (op Z)) : list (obs Z Z * list bool) :=
+  match m_init Z Z labels slots mp with
+  | Err e => [(ObErr Z Z e, [])]
+  | Ok b => (ObUnit Z Z, m_flags Z Z b) :: m_run Z Z Z.eqb Z.leb (zkey_tbl tbl) (z_mstore content t0) b ops
+  end.
